@@ -54,7 +54,7 @@ func checkC16(tier string) int {
 	vx.JobTimeout = 4 * time.Minute
 	rep.Rule = "fault enumeration: every sequence of <= N churn operations (create/delete topic and channel, ephemeral channel, first publish to a new topic, heartbeat ticks) x every sequence of <= M faults applied to successive connection attempts to nsqlookupd (refuse, accept-then-close, stall, garbage, replies with length prefix -1 / -2^31 / max-body+1 / 2^31-1, truncated reply, E_INVALID to IDENTIFY, restart with empty state) x one or two lookupds; plus every sequence of <= K operations over {set the lookupd list at runtime to {}, {1}, {2}, {1,2}; create a topic; heartbeat tick} x <= 1 fault; on a real nsqd and real nsqlookupd(s) joined by in-memory connections; afterwards 4 heartbeat intervals of virtual time and a comparison of every lookupd's registrations with nsqd's topics/channels; a publish and a delivery must succeed after every step; nsqlookupd's replies arriving 1 or 3 bytes per read (TCP segmentation) on every connection; nsqlookupd dropping its connections or restarting empty after durable and ephemeral topics/channels exist (the reconnect registers everything again); one lookupd whose HTTP side fails (refused, 500, garbage, empty) next to a healthy one when a topic is first created by a publish; E2: create/delete/re-create scripts of topics and channels issued back to back with every schedule of <= d deviations over the notification path (Notify goroutines -> notifyChan -> lookupLoop). distinct = distinct (case, outcome) pairs"
 	rep.Assumptions = []string{"default schedule for the fault and reconfiguration cases; delay-bounded schedules for the notification-path scripts", "virtual time; nsqd's hard-coded 15 s heartbeat and 1 s lookupd I/O deadlines are real code"}
-	faults := []string{"ok", "refuse", "close", "stall", "garbage", "neglen", "minlen", "overlimit", "hugelen", "trunc", "einvalid", "restart"}
+	faults := []string{"ok", "refuse", "close", "slow", "stall", "garbage", "neglen", "minlen", "overlimit", "hugelen", "trunc", "einvalid", "restart"}
 	ops := []string{"mk:a", "mkch:a:x", "rmch:a:x", "rm:a", "mkeph", "pub:fresh", "tick"}
 	nOps, nFaults := 2, 2
 	if tier == "thorough" {
